@@ -97,10 +97,10 @@ spend_flags = st.sampled_from([STD, STD, STD & ~F['CLEANSTACK'], STD & ~F['NULLF
 def legacy_spend(draw):
     from . import spends
     rnd = draw(st.randoms(use_true_random=False))
-    typ = draw(st.sampled_from(['p2pkh', 'p2sh-multisig', 'p2sh-script', 'p2wsh', 'p2wsh-script', 'p2sh-p2wpkh', 'p2sh-p2wsh', 'p2wpkh', 'p2tr-key', 'multisig', 'p2pk', 'p2wsh-codesep', 'p2wsh-codesep']))
+    typ = draw(st.sampled_from(['p2pkh', 'p2sh-multisig', 'p2sh-script', 'p2wsh', 'p2wsh-script', 'p2sh-p2wpkh', 'p2sh-p2wsh', 'p2wpkh', 'p2tr-key', 'multisig', 'p2pk', 'p2wsh-codesep', 'p2wsh-codesep', 'bare-script', 'bare-script']))
     c = spends.build(rnd, typ, ninputs=1 if typ == 'p2tr-key' else None)
     flags = draw(spend_flags)
-    if typ not in ('p2pkh', 'p2sh-multisig', 'p2sh-script', 'multisig', 'p2pk') and flags == NO_P2SH:
+    if typ not in ('p2pkh', 'p2sh-multisig', 'p2sh-script', 'multisig', 'p2pk', 'bare-script') and flags == NO_P2SH:
         flags = STD
     return dict(kind='spend-' + typ + ('-noP2SH' if flags == NO_P2SH else ''), kw=dict(spendtx=c['tx'].ser().hex(), spendtxin=c['fund'].ser().hex(), flags=flags))
 
